@@ -262,9 +262,11 @@ class Module:
 
 
 class Program:
-    def __init__(self, root, package='csep'):
+    def __init__(self, root, package='csep', normalize=None):
         self.root, self.package = root, package
         self.modules, self.funcs, self.classes = {}, {}, {}
+        self.alias = {}
+        self.normalization = {}
         pkgdir = os.path.join(root, package)
         if not os.path.isdir(pkgdir):
             raise AnchorMissing('package directory %s not found' % pkgdir)
@@ -281,12 +283,22 @@ class Program:
                     parts = parts[:-1]
                 name = '.'.join(parts)
                 self.modules[name] = Module(self, name, path, rel, is_pkg)
+        if normalize is None:
+            normalize = os.environ.get('SA_NO_NORMALIZE') != '1'
+        if normalize:
+            # canonicalising pre-pass against the reference tree (renamed helpers / locals, extracted helpers)
+            from . import normalize as _norm
+            _norm.apply(self)
+            for m in self.modules.values():
+                set_parents(m.tree)
         for m in self.modules.values():
             self._index(m, m.tree, m.name, '', None, None)
         for c in self.classes.values():
             for b in c.node.bases:
                 nm = self.canon_in_module(c.module, b)
                 c.base_names.append(nm or ast.unparse(b))
+        if normalize:
+            _norm.positional_prefix(self)
 
     def _index(self, module, node, qprefix, sprefix, cls, parentfunc):
         for n in node.body if hasattr(node, 'body') else []:
@@ -296,6 +308,10 @@ class Program:
         if isinstance(n, (ast.FunctionDef, ast.AsyncFunctionDef)):
             short = sprefix + n.name
             qual = qprefix + '.' + n.name
+            if qual in self.alias:
+                # a renamed / moved helper answers to the name it had on the reference tree
+                qual = self.alias[qual]
+                short = qual[len(module.name) + 1:]
             # property setter shares the name with the getter: keep both
             fi = FuncInfo(self, module, n, qual, short, cls=cls, parent=parentfunc)
             if fi.kind in ('setter', 'deleter'):
@@ -308,8 +324,7 @@ class Program:
                     cls.methods[n.name + '.' + fi.kind] = fi
                 else:
                     cls.methods[n.name] = fi
-            for sub in ast.walk(n):
-                pass
+                    cls.methods.setdefault(qual.split('.')[-1], fi)
             self._index_nested(module, n, qual + '.<locals>', short + '.<locals>.', fi)
         elif isinstance(n, ast.ClassDef):
             short = sprefix + n.name
@@ -330,6 +345,7 @@ class Program:
         for n in walk_scope(funcnode):
             if isinstance(n, (ast.FunctionDef, ast.AsyncFunctionDef)):
                 qual = qprefix + '.' + n.name
+                qual = self.alias.get(qual, qual)
                 fi = FuncInfo(self, module, n, qual, sprefix + n.name, cls=parentfunc.cls, parent=parentfunc)
                 self.funcs[qual] = fi
                 self._index_nested(module, n, qual + '.<locals>', sprefix + n.name + '.<locals>.', fi)
@@ -377,6 +393,8 @@ class Program:
         seen = set()
         while name not in seen:
             seen.add(name)
+            if name in self.alias:
+                return self.alias[name]
             if name in self.funcs or name in self.classes or name in self.modules:
                 return name
             head, _, tail = name.rpartition('.')
@@ -410,6 +428,7 @@ class Program:
                     return self.resolve_global(li[ident])
                 # nested function or class defined locally
                 q = scope.qualname + '.<locals>.' + ident
+                q = self.alias.get(q, q)
                 if q in self.funcs or q in self.classes:
                     return q
                 return None
@@ -417,7 +436,8 @@ class Program:
         if ident in module.imports and module.toplevel.get(ident) not in ('func', 'class'):
             return self.resolve_global(module.imports[ident])
         if ident in module.toplevel:
-            return module.name + '.' + ident
+            q = module.name + '.' + ident
+            return self.alias.get(q, q)
         if ident in BUILTINS:
             return 'builtins.' + ident
         return '?undefined.' + ident
@@ -435,7 +455,8 @@ class Program:
         if root is None:
             return None
         name = '.'.join([root] + chain[::-1])
-        return self.resolve_global(name)
+        name = self.resolve_global(name)
+        return self.alias.get(name, name)
 
     def canon_in_module(self, module, expr):
         return self.canon(module, expr)
